@@ -253,6 +253,10 @@ pub fn start_job(command: Arc<Command>) -> (Job, JoinHandle<()>) {
 								Control::ContinueTryGracefulRestart => {
 									trace!("continuing a graceful try-restart");
 
+									// this is the restart: the next process end must not restart again,
+									// whether or not stopping the process succeeds below
+									on_end_restart = None;
+
 									if let CommandState::Running { child, started, .. } = &mut command_state {
 										trace!("stopping child forcefully");
 										try_with_handler!(Box::into_pin(child.kill()).await);
@@ -271,9 +275,6 @@ pub fn start_job(command: Arc<Command>) -> (Job, JoinHandle<()>) {
 											done.raise();
 										}
 									}
-
-									// this is the restart: the next process end must not restart again
-									on_end_restart = None;
 
 									let mut spawnable = command.to_spawnable();
 									previous_run = Some(command_state.reset());
